@@ -156,7 +156,9 @@ def explore(pool, modname, specname, params, max_depth, undedup_depth, prop_labe
                     conflicts.append(("state missed by dedup pass", h2))
         front = nxt
 
-    if conflicts:
+    if conflicts and not acc.violations:
+        # (with violations reported, differing futures of equal canonical states are explained by them: the
+        #  implementation keeps state the canon cannot see, which is what the violations say)
         acc.error(
             f"{specname}: canonical form is too coarse or implementation is nondeterministic: "
             f"{conflicts[:3]}"
